@@ -2363,9 +2363,10 @@ def deal_kinds(rnd, n_schemas, masked=(), per_schema=6):
     return musts
 
 
-def probe_schema(kind_name, variant=0):
-    """fixed schema holding just that construct: depends on (kind, variant) only, never on the run's seed"""
+def probe_schema(kind_name, variant=0, masked=()):
+    """fixed schema holding just that construct: depends on (kind, variant) only, never on the run's seed;
+    shapes of OTHER masked kinds that the expression generator produces by chance are rewritten as in random schemas"""
     rnd = random.Random('c07probe/%s/%d' % (kind_name, variant))
-    it = make_item(kind_name, rnd)
+    it = make_item(kind_name, rnd, masked=frozenset(masked) - {kind_name})
     nm = 'probe_' + ''.join(c if c.isalnum() else '_' for c in kind_name).strip('_').lower() + '_%d' % variant
     return Schema(nm, [it], Style(random.Random(0), plain=True))
